@@ -1,9 +1,11 @@
 package hx
 
 import (
+	"encoding/json"
 	"fmt"
 	"math/big"
 	"reflect"
+	"strings"
 	"time"
 
 	"github.com/google/jsonschema-go/jsonschema"
@@ -248,7 +250,7 @@ func (w *Worker) RunKernel(kc *KernelCase, property string) *SkelResult {
 					ok, pan = callNative(in)
 				}
 			}
-			f := Finding{Property: property, Skeleton: kc.Name, Family: "kernel", Doc: kc.Func, GoValue: describe(in), Instance: describe(in), Expected: "kernel " + kc.Func + " returns true"}
+			f := Finding{Property: property, Skeleton: kc.Name, Family: "kernel", Doc: kc.Func, GoValue: describe(in), Instance: describe(in), Expected: "kernel " + kc.Func + " returns true", Detail: kernelArgsJSON(in)}
 			switch {
 			case pan != nil:
 				f.Kind, f.Observed = "panic", fmt.Sprint(pan)
@@ -394,4 +396,80 @@ func init() {
 		r.Bounds = append(r.Bounds, fmt.Sprintf("real SSA of orderedProperties.MarshalJSON and basicChecks: properties = every subset of {a,b,c,B} (symbolic presence; b and B differ only in case), PropertyOrder = every sequence of length <= %d over {a,b,c,B,z} (z names no property; duplicates allowed), every map iteration order; json.Marshal of the (empty) property schemas is stubbed to the bytes `true`", maxO))
 		r.Outside = append(r.Outside, "determinism of the rest of Marshal (encoding/json sorts map keys; its body is not encoded); nested schemas with their own PropertyOrder beyond one level")
 	}
+}
+
+// kernelNatives maps overlay kernel names to the native functions (for `bin/check replay`).
+var kernelNatives = map[string]any{
+	"VerifKernelDeref":                     jsonschema.VerifKernelDeref,
+	"VerifKernelDerefBigIndex":             jsonschema.VerifKernelDerefBigIndex,
+	"VerifKernelEqualAliased":              jsonschema.VerifKernelEqualAliased,
+	"VerifKernelEscapeRoundTrip":           jsonschema.VerifKernelEscapeRoundTrip,
+	"VerifKernelParse":                     jsonschema.VerifKernelParse,
+	"VerifKernelParseNoSlash":              jsonschema.VerifKernelParseNoSlash,
+	"VerifKernelPropertyOrder":             jsonschema.VerifKernelPropertyOrder,
+	"VerifKernelPropertyOrderAfterFailure": jsonschema.VerifKernelPropertyOrderAfterFailure,
+	"VerifKernelSchemaVersion":             jsonschema.VerifKernelSchemaVersion,
+}
+
+func kernelArgsJSON(in []reflect.Value) string {
+	var args []any
+	for _, v := range in {
+		args = append(args, v.Interface())
+	}
+	b, _ := json.Marshal(args)
+	return "args=" + string(b)
+}
+
+// replayKernel calls the native kernel with the recorded arguments (repeatedly: some kernels
+// depend on map iteration order) and reports whether it returns false or panics.
+func replayKernel(f Finding) int {
+	fn, ok := kernelNatives[f.Doc]
+	if !ok || !strings.HasPrefix(f.Detail, "args=") {
+		return -1
+	}
+	var raw []any
+	if err := json.Unmarshal([]byte(f.Detail[len("args="):]), &raw); err != nil {
+		return -1
+	}
+	ft := reflect.TypeOf(fn)
+	if ft.NumIn() != len(raw) {
+		return -1
+	}
+	in := make([]reflect.Value, len(raw))
+	for i, a := range raw {
+		switch ft.In(i).Kind() {
+		case reflect.Int:
+			x, _ := a.(float64)
+			in[i] = reflect.ValueOf(int(x))
+		case reflect.Bool:
+			x, _ := a.(bool)
+			in[i] = reflect.ValueOf(x)
+		case reflect.String:
+			x, _ := a.(string)
+			in[i] = reflect.ValueOf(x)
+		default:
+			return -1
+		}
+	}
+	fmt.Printf("kernel %s(%s)\n", f.Doc, f.GoValue)
+	for try := 0; try < 100; try++ {
+		res, pan := func() (ok bool, pan any) {
+			defer func() {
+				if r := recover(); r != nil {
+					pan = r
+				}
+			}()
+			return reflect.ValueOf(fn).Call(in)[0].Bool(), nil
+		}()
+		if pan != nil {
+			fmt.Println("panics:", pan, "\nREPRODUCED")
+			return 0
+		}
+		if !res {
+			fmt.Println("returns false (the property encoded by the kernel does not hold for these arguments)\nREPRODUCED")
+			return 0
+		}
+	}
+	fmt.Println("returns true on 100 calls: not reproduced")
+	return 1
 }
